@@ -598,6 +598,16 @@ func (rm *room) mutatePL(before map[ref.Key]string, actor user, honest bool) map
 		}
 		rm.r.Probe("pl_names_a_creator")
 	}
+	if !rm.priv && rm.extraCreators && rm.currentPL(before) == nil && len(rm.users) > 1 && actor.id == rm.users[1].id && t.Chance(600) {
+		// the user a pre-v12 create event lists under additional_creators (a
+		// member without meaning there) writes the room's first power levels
+		// as a creator would: the real creator at the level creators have
+		// while there is no power-levels event, and itself promoted
+		cr := rm.nodes[rm.order[0]].ev
+		users[string(cr.SenderID())] = sim.Pick(t, []int{9007199254740991, 100})
+		users[actor.id] = sim.Pick(t, []int{100, 50, 9007199254740991})
+		rm.r.Probe("pl_first_event_by_listed_non_creator")
+	}
 	nm := t.Range(1, 3)
 	for i := 0; i < nm; i++ {
 		switch t.Intn(7) {
